@@ -19,6 +19,16 @@ class Scenario:
     assumptions = []
     fns = FNS
 
+    @property
+    def depth(self):
+        """Length multiplier of generated histories: 1 in the quick tier, 2 in the thorough tier (deeper bounds there).
+        Set by the runner for the whole batch (children inherit it); recorded in cold/warm replay files."""
+        import os
+        try:
+            return max(1, int(os.environ.get('LSIM_DEPTH', '1')))
+        except ValueError:
+            return 1
+
     # ---- to override
     def prelude(self, verif_seed):
         return []
